@@ -97,12 +97,10 @@ class Hostname(object):
             for od, d in self._dn_db.items():
                 # regex = re.compile(r'\w*\.%s' % d)
                 regex = re.compile(r'(?![\W\-\:\ \.])[a-zA-Z0-9\-\_\.]*\.%s' % d)
-                hostnames = [each for each in regex.findall(line)]
-                if len(hostnames) > 0:
-                    for hn in hostnames:
-                        new_hn = self._hn2db(hn)
-                        logger.debug("Obfuscating FQDN - %s > %s", hn, new_hn)
-                        line = line.replace(hn, new_hn)
+                # substitute every match in place, in a single pass: a chained
+                # str.replace would also rewrite a hostname inside a longer one
+                # and the substitutes that were just put into the line
+                line = regex.sub(lambda m: self._hn2db(m.group(0)), line)
             # catch any non-fqdn instances of the system hostname
             line = line.replace(self._hostname, self._hn2db(self._fqdn))
             return line
